@@ -96,6 +96,8 @@ def read_gmsh(filename):
     t = np.fromfile(f, "int", tnum * len(larr), " ")
     t.shape = (tnum, len(larr))
     t = np.delete(t, np.s_[0 : len(larr) - 4], 1)
+    # node numbers in the file are 1-based
+    t = t - 1
     line = f.readline()
     if not line.startswith("$EndElements"):
         print("Line: ", line, " \n")
